@@ -90,7 +90,9 @@ func (vm *Vm) AddTraceback(exc *py.ExceptionInfo) {
 		Next:   exc.Traceback,
 		Frame:  vm.frame,
 		Lasti:  vm.frame.Lasti,
-		Lineno: vm.frame.Code.Addr2Line(vm.frame.Lasti),
+		// Lasti has already been advanced past the instruction which raised, so look
+		// up the line of its last byte
+		Lineno: vm.frame.Code.Addr2Line(vm.frame.Lasti - 1),
 	}
 }
 
